@@ -119,6 +119,8 @@ def validate(traces, wd):
         r = tlc(os.path.join(SPEC, "PTrace.tla"), os.path.join(SPEC, "PTrace.cfg"), wd,
                 env_extra={"TRACE": t}, workers=1, timeout=1500, xmx="3g")
         out = r["out"]
+        if "PTRACE-GHOST-INCONSISTENT" in out:
+            raise ToolError(f"the reference state became inconsistent (must not within may) while validating {t}")
         if '<<"PTRACE-DONE"' not in out:
             tail = "\n".join(out.splitlines()[-30:])
             raise ToolError(f"trace validation did not consume {t}:\n{tail}")
